@@ -94,6 +94,8 @@ Modes  == {"none", "raise", "exit0", "exit1", "kill", "kill_helper_first", "kill
 \* the same helper deaths on the OTHER host (the one that is to receive a transfer; two-host shapes only)
 RemoteModes == {"kill_remote_helper_first", "kill_remote_helper_second"}
 BusyModes == {"raise_busy_sibling", "raise_busy_deaf_sibling"}
+\* helpers ended by SIGTERM instead of SIGKILL (an operator's kill, a batch system's pre-emption): their own handlers run
+TermModes == {"term_helper_first", "term_helper_second"}
 Places == {<<"t1", "before">>, <<"t1", "between">>, <<"t1", "after">>, <<"t2", "before">>, <<"t2", "after_compute">>}
 Scenarios == {[hosts |-> s[1], workers |-> s[2], mode |-> m, task |-> p[1], point |-> p[2]] :
                  s \in Shapes, m \in Modes \ {"none"}, p \in Places}
@@ -103,11 +105,13 @@ Scenarios == {[hosts |-> s[1], workers |-> s[2], mode |-> m, task |-> p[1], poin
              \* the shutdown message; Executor.terminate has to kill it after its grace period)
              \* ("deaf": that task body has installed its own SIGTERM handler, as numerical libraries and frameworks do)
              \cup {[hosts |-> s[1], workers |-> s[2], mode |-> m, task |-> "t2", point |-> "before"] : s \in {<<1, 2>>, <<2, 1>>}, m \in BusyModes}
+             \cup {[hosts |-> s[1], workers |-> s[2], mode |-> m, task |-> p[1], point |-> p[2]] : s \in Shapes, m \in TermModes, p \in Places}
 \* quick tier: one shape per (mode, place) rotated deterministically
-Rank(sc) == (IF sc.mode \in RemoteModes \cup BusyModes THEN 0 ELSE CHOOSE i \in 1..7 : SetToSeq(Modes)[i] = sc.mode) + (IF sc.task = "" THEN 0 ELSE CHOOSE i \in 1..5 : SetToSeq(Places)[i] = <<sc.task, sc.point>>)
+Rank(sc) == (IF sc.mode \in RemoteModes \cup BusyModes \cup TermModes THEN 0 ELSE CHOOSE i \in 1..7 : SetToSeq(Modes)[i] = sc.mode) + (IF sc.task = "" THEN 0 ELSE CHOOSE i \in 1..5 : SetToSeq(Places)[i] = <<sc.task, sc.point>>)
 ShapeIdx(sc) == CHOOSE i \in 1..3 : SetToSeq(Shapes)[i] = <<sc.hosts, sc.workers>>
 QuickScenarios == {sc \in Scenarios : \/ sc.mode \in BusyModes
-                                      \/ sc.mode \notin RemoteModes \cup BusyModes /\ (Rank(sc) % 3) + 1 = ShapeIdx(sc) /\ sc.point \in {"", "before", "between", "after"}
+                                      \/ sc.mode \in TermModes /\ <<sc.hosts, sc.workers, sc.task, sc.point>> \in {<<1, 2, "t1", "between">>, <<2, 1, "t1", "before">>}
+                                      \/ sc.mode \notin RemoteModes \cup BusyModes \cup TermModes /\ (Rank(sc) % 3) + 1 = ShapeIdx(sc) /\ sc.point \in {"", "before", "between", "after"}
                                       \/ sc.mode = "kill_remote_helper_second" /\ <<sc.task, sc.point>> \in {<<"t1", "before">>, <<"t1", "after">>, <<"t2", "before">>}
                                       \/ sc.mode = "kill_remote_helper_first" /\ <<sc.task, sc.point>> = <<"t1", "before">>}
 Generate == IF IOEnv.PASS # "generate" THEN TRUE
